@@ -13,7 +13,7 @@ RIDS = ["addShape", "picture", "notes", "setLink", "changeLink", "clearLink", "s
 
 def configs(thorough):
     if thorough:
-        return [("ids", IDS, 4, [2, 3, 4, 5, 6], None), ("rids", RIDS, 4, [2, 5], None), ("sim", c02.FULL, 12, [1, 2, 3, 4, 5], "num=600")]
+        return [("ids", ["addShape", "autoshape", "group", "freeform", "picture", "setTurbo", "addSlide", "reopen"], 4, [2, 4], None), ("ids3", IDS, 3, [2, 3, 4, 5, 6], None), ("rids", RIDS, 4, [5], None), ("rids3", RIDS, 3, [2], None), ("sim", c02.FULL, 12, [1, 2, 3, 4, 5], "num=600")]
     return [("ids", ["addShape", "autoshape", "group", "freeform", "picture", "setTurbo", "addSlide", "reopen", "access"], 3, [2, 4], None),
             ("media", ["addShape", "picture", "movie", "reopen", "save"], 3, [6], None),
             ("rids", RIDS, 3, [5], None), ("turbo", ["setTurbo", "addShape", "textbox", "freeform"], 4, [5], None),
